@@ -163,6 +163,26 @@ pub fn scenario(replicas: usize, primary: bool, lb: &str, history: &[(&str, usiz
     }
 }
 
+/// A second client keeps a transaction open on a replica for the whole history: the replica's pool has a
+/// connection in use and none idle while the fault events hit that replica.
+pub fn scenario_with_holder(replicas: usize, primary: bool, lb: &str, history: &[(&str, usize, &str)]) -> Scenario {
+    let mut sc = scenario(replicas, primary, lb, history);
+    let holder = crate::cfg::Script::new("holder")
+        .connect("alice", "db", Some("alicepw"))
+        .q("SET SERVER ROLE TO 'replica'")
+        .q("BEGIN")
+        .q("SELECT 'held'")
+        .wait(Cond::ActorsDone(vec![0]))
+        .q("COMMIT")
+        .terminate()
+        .actor();
+    let at = holder.steps.iter().position(|s| matches!(s, Step::Wait(Cond::ActorsDone(_)))).unwrap();
+    sc.actors[0].steps.insert(0, Step::Wait(Cond::ActorAt(1, at)));
+    sc.actors.push(holder);
+    sc.name = format!("{} holder=yes", sc.name);
+    sc
+}
+
 fn role_of(addr: &str) -> &'static str {
     match addr.split('-').nth(2).and_then(|x| x.chars().next()) {
         Some('p') => "primary",
@@ -460,12 +480,24 @@ pub fn build(tier: &str) -> SimCheck {
             }
         }
     }
+    // a replica with a connection in use (a client inside a transaction) and none idle, then the events
+    for (replicas, primary) in [(2usize, true), (1, true)] {
+        for ev in ["refuse", "stop", "blackhole", "hcfail", "ban"] {
+            for role in ["replica", "any"] {
+                scenarios.push(scenario_with_holder(replicas, primary, "random", &[(ev, 0, role)]));
+                if thorough || ev == "refuse" {
+                    scenarios.push(scenario_with_holder(replicas, primary, "random", &[(ev, 0, role), ("none", 0, role)]));
+                    scenarios.push(scenario_with_holder(replicas, primary, "random", &[(ev, 0, role), (ev, 1 % replicas, role)]));
+                }
+            }
+        }
+    }
     SimCheck {
         scenarios,
         oracle: Box::new(oracle),
         bound: 1,
         limits: Limits { max_wall_s: if thorough { 2400.0 } else { 55.0 }, ..Default::default() },
-        rule: "scenario = shard shape (replicas 1..3 with/without primary, primary only) x load-balancing mode x history of depth 1-2 (thorough 3) over 16 events on a replica (down, crashed, stopped = accepts but never answers the startup until it runs again, black-holed = connect swallowed until the kernel's 127 s timeout, recover, health check failing / hanging / answering late after an idle gap, breaking or hanging mid-statement, admin BAN / UNBAN, one second passing, ban expiry, admin-ban expiry), each followed by a transaction with role any/replica/primary between two pooler-state probes, then recovery and final transactions; every candidate order (enumerated shuffle) with 1 deviation".into(),
+        rule: "scenario = shard shape (replicas 1..3 with/without primary, primary only) x load-balancing mode x history of depth 1-2 (thorough 3) over 16 events on a replica (down, crashed, stopped = accepts but never answers the startup until it runs again, black-holed = connect swallowed until the kernel's 127 s timeout, recover, health check failing / hanging / answering late after an idle gap, breaking or hanging mid-statement, admin BAN / UNBAN, one second passing, ban expiry, admin-ban expiry), each followed by a transaction with role any/replica/primary between two pooler-state probes, then recovery and final transactions; the same with a second client holding a transaction open on a replica throughout (its pool has a connection in use and none idle); every candidate order (enumerated shuffle) with 1 deviation".into(),
         assumptions: vec![
             "ban membership is read from the pooler (get_bans) and cross-checked against observed failures; expiry is computed from the virtual wall clock".into(),
             "a candidate with any pending injected fault counts as unhealthy when deciding whether service was owed".into(),
